@@ -8,6 +8,8 @@ open Kv Drv
     kind=issuer     provider construction with a static issuer string (url.Parse answer = oracle)
     kind=dynissuer  provider construction with issuer-from-host / Forwarded, and the issuer produced for one request
     kind=discover   client.Discover against a served document
+    kind=visit      one discovery request of a SEQUENCE of requests from several hosts to one provider (`prov`, `step`), followed by
+                    token issuance through the same host: the document served and the `iss` of the tokens
 -/
 namespace Drv.C19
 open _root_.C19 Disco
@@ -60,6 +62,28 @@ def parseOracle (l : Line) (key : String) : String → Go.R DiscURL := fun s =>
   else if bool l "p.err" then .error "parse"
   else .ok { Scheme := str l "p.scheme", Host := str l "p.host", Fragment := str l "p.frag", query := List.replicate (nat l "p.nq") "k" }
 
+/-- url.Parse oracle under a key prefix: the issuer argument of a provider (`is.arg`) with what the real parser said about it -/
+def parseOracleP (l : Line) (key pre : String) : String → Go.R DiscURL := fun s =>
+  if s != str l key then .error "not-queried"
+  else if bool l (pre ++ "err") then .error "parse"
+  else .ok { Scheme := str l (pre ++ "scheme"), Host := str l (pre ++ "host"), Fragment := str l (pre ++ "frag"), query := List.replicate (nat l (pre ++ "nq")) "k" }
+
+def parseStrategy (l : Line) (kindKey argKey : String) : IssuerStrategy :=
+  match str l kindKey with
+  | "host" => .fromHost (str l argKey)
+  | "forwarded" => .fromForwarded (str l argKey)
+  | _ => .static (str l argKey)
+
+/-- a visit as its sender knows it: strategy of the provider, Host line, the host its forwarding headers name (ground truth of the generator) -/
+def parseVisit (l : Line) : Visit :=
+  { strategy := parseStrategy l "is.kind" "is.arg", host := str l "host", fwdHost := opt l "fwd" }
+
+def tokenKinds : List String := ["id", "at", "cc"]
+
+def parseVisitObs (l : Line) : VisitObs :=
+  { status := nat l "d.status", doc := parseDoc l,
+    tokenIssuers := tokenKinds.filterMap fun k => (opt l ("tok." ++ k)).map fun iss => (k, iss) }
+
 def docSummary (d : DiscoveryConfiguration) : String :=
   let n := (Field.all.filter (fun f => f.advertised d != "")).length
   s!"ep{n}gr{d.GrantTypesSupported.length}pk{d.CodeChallengeMethodsSupported.length}ro{if d.RequestParameterSupported then 1 else 0}"
@@ -72,6 +96,8 @@ def classOf (l : Line) : String :=
     let c := parseConfig l
     let shapes := String.join (Field.all.map fun f => shape (f.configured c.endpoints))
     s!"config:{str l "router"}:{str l "is.kind"}:{shapes}"
+  | "visit" =>
+    s!"visit:{str l "router"}:{str l "is.kind"}{if has l "is.hdrs" then "+custom" else ""}:hosts-per-provider-{nat l "nhosts"}:discovery-order-{str l "oclass"}:tokens-{str l "tokvia"}"
   | "issuer" => s!"issuer:{if bool l "acc" then "accepted" else "rejected:" ++ str l "o.err"}"
   | "dynissuer" => s!"dynissuer:{str l "strategy"}:{if bool l "acc" then "accepted" else "rejected:" ++ str l "o.err"}"
   | "discover" => s!"discover:{if bool l "acc" then "accepted" else "rejected:" ++ str l "o.err"}"
@@ -80,12 +106,14 @@ def classOf (l : Line) : String :=
 def observedOf (l : Line) : String :=
   match str l "kind" with
   | "config" => if str l "obs" == "panic" then "panic" else docSummary (parseDoc l)
+  | "visit" => if str l "obs" == "panic" then "panic" else s!"iss={esc (parseDoc l).Issuer};{docSummary (parseDoc l)}"
   | _ => if str l "obs" == "panic" then "panic" else if bool l "acc" then "ok" else "err:" ++ str l "o.err"
 
 def monitorLine (l : Line) : Option String :=
   if str l "obs" == "panic" then some "panic" else
   match str l "kind" with
   | "config" => monitor (parseConfig l) (parseObs l)
+  | "visit" => monitorVisit (parseConfig l) (parseVisit l) (parseVisitObs l)
   | "issuer" => monitorIssuer (parseOracle l "s") (str l "s") (bool l "insecure") (bool l "acc")
   | "dynissuer" => monitorDynamicIssuer (parseOracle l "path") (str l "path") (bool l "insecure") (bool l "acc") (opt l "o.iss")
   | "discover" => monitorDiscover (str l "asked") (str l "served") (if bool l "acc" then some (str l "o.iss") else none)
